@@ -38,7 +38,9 @@ func init() {
 		mutant{"accept leaks when the local address cannot be read", "listen_conn.go",
 			"\tlocalAddr, err := internal.SocketAddress(fd)\n\tif err != nil {\n\t\t_ = syscall.Close(fd)\n\t\treturn nil, err\n\t}", "\tlocalAddr, err := internal.SocketAddress(fd)\n\tif err != nil {\n\t\treturn nil, err\n\t}", "C13-R1|(*sonic.listener).accept"},
 		mutant{"failed upgrade leaves the connection open", "codec/websocket/stream.go",
-			"\t\t\tif err != nil {\n\t\t\t\t// A failed handshake must not leave the connection open: nobody else is going to close it.\n\t\t\t\t_ = s.CloseNextLayer()\n\t\t\t}\n", "", "C13-R1w"},
+			"\t\tif failed != nil {\n\t\t\t_ = failed.Close()\n\t\t}\n", "\t\t_ = failed\n", "C13-R1w"},
+		mutant{"failed upgrade is reported without taking the connection", "codec/websocket/stream.go",
+			"\t\t\tif err != nil {\n\t\t\t\tfailed, s.conn = s.conn, nil\n\t\t\t}\n", "", "C13-R1w"},
 		mutant{"listener close is not guarded", "listen_conn.go",
 			"\tif !atomic.CompareAndSwapUint32(&l.closed, 0, 1) {\n\t\t// Already closed: the descriptor number may belong to somebody else by now.\n\t\treturn io.EOF\n\t}\n\n", "\t_ = io.EOF\n\t_ = atomic.LoadUint32(&l.closed)\n", "C13-R2"},
 		mutant{"file close bails out before close(2)", "file.go",
@@ -104,13 +106,22 @@ func runC13(c *Ctx) {
 					c.unproven(cf, "paths", cf.Pos(), "too many paths")
 					continue
 				}
+				connF := p.Field("codec/websocket", "Stream", "conn")
 				bad := ""
+				takenInto := map[*ssa.FreeVar]bool{}
 				for _, path := range paths {
 					pi := newPathIndex(path)
 					closed := false
 					for i, in := range pi.instrs {
 						if isCallToFn(in, closeNL) {
 							closed = true
+						}
+						// the connection handed to the enclosing function through a captured variable: *fv = s.conn
+						if st, ok := in.(*ssa.Store); ok {
+							if fv, ok := st.Addr.(*ssa.FreeVar); ok && loadOfField(st.Val, connF) {
+								takenInto[fv] = true
+								closed = true
+							}
 						}
 						cc, ok := in.(ssa.CallInstruction)
 						if !ok || !isDynamicFuncCall(cc) || len(cc.Common().Args) == 0 {
@@ -122,6 +133,48 @@ func runC13(c *Ctx) {
 						if st != "nil" && !closed {
 							bad = fmt.Sprintf("the handshake result is reported with a possibly non-nil error without closing the dialed connection (%s)", path)
 						}
+					}
+				}
+				// a connection taken out through a captured variable is closed by the enclosing function once dial returned:
+				// Close on the variable's value, dominated by the dial call, under no other condition than "a connection was taken"
+				for fv := range takenInto {
+					cell := cellOf(bindingOf(cf, fv))
+					okClose := false
+					if cell != nil {
+						eachInstr(hs, func(in ssa.Instruction) {
+							if !closesConnection(in) || !dominatesInstr(call.(ssa.Instruction), in) {
+								return
+							}
+							u, isLoad := strip(in.(ssa.CallInstruction).Common().Value).(*ssa.UnOp)
+							if !isLoad || cellOf(u.X) != cell {
+								return
+							}
+							extra := 0
+							dialGuards := guardsOf(call.(ssa.Instruction).Block())
+							for _, l := range guardsOf(in.Block()) {
+								inDial := false
+								for _, d := range dialGuards {
+									if d.Cond == l.Cond && d.Pos == l.Pos {
+										inDial = true
+									}
+								}
+								if inDial {
+									continue
+								}
+								if v, eq, ok := l.nilTest(); ok && !eq {
+									if lu, ok := strip(v).(*ssa.UnOp); ok && cellOf(lu.X) == cell {
+										continue
+									}
+								}
+								extra++
+							}
+							if extra == 0 {
+								okClose = true
+							}
+						})
+					}
+					if !okClose {
+						bad = "the connection of a failed handshake is moved into " + fv.Name() + " but the enclosing function does not close it after dial returned"
 					}
 				}
 				hasUpgrade := len(callsToFn(cf, upgrade)) > 0
@@ -142,19 +195,30 @@ func runC13(c *Ctx) {
 		{"multicast", "UDPPeer", "Close"}, {"sonic", "Socket", "Close"}, {"internal", "poller", "Close"}, {"sonic", "Timer", "Close"}, {"bytes", "MirroredBuffer", "Destroy"}} {
 		fn := p.Method(cl.pkg, cl.typ, cl.method)
 		var finals []ssa.Instruction
-		eachInstr(fn, func(in ssa.Instruction) {
+		var isFinal func(cur *ssa.Function, in ssa.Instruction, depth int) bool
+		isFinal = func(cur *ssa.Function, in ssa.Instruction, depth int) bool {
 			if isCallTo(in, sysClose, munmap) {
-				finals = append(finals, in)
-				return
+				return true
 			}
 			// delegation to an owned object's Close (Socket, internal.Timer, EventFd)
 			if call, ok := in.(*ssa.Call); ok {
 				if callee := call.Call.StaticCallee(); callee != nil && callee.Name() == "Close" && callee != fn && callee.Signature.Recv() != nil {
 					rp, rt := recvTypeName(callee)
 					if (rp == modPath && rt == "Socket") || (rp == modPath+"/internal" && (rt == "Timer")) {
-						finals = append(finals, in)
+						return true
 					}
 				}
+				// an unexported release helper of the same package that closes on every path
+				if callee := call.Call.StaticCallee(); depth > 0 && isHelperOf(cur, callee) {
+					okp, _ := mustPassAt(callee.Blocks[0], 0, func(x ssa.Instruction) bool { return isFinal(callee, x, depth-1) })
+					return okp
+				}
+			}
+			return false
+		}
+		eachInstr(fn, func(in ssa.Instruction) {
+			if isFinal(fn, in, 2) {
+				finals = append(finals, in)
 			}
 		})
 		if len(finals) == 0 {
